@@ -740,7 +740,13 @@ class Request(interfaces.Request, BaseUnicastRequest):
             # (while still being interested in the response); a cancelled
             # observation takes no more events.
             if not self.observation.cancelled:
-                self.observation.error(error.NotObservable())
+                if first_event.exception is not None:
+                    # The request failed in the transport; that is not a
+                    # statement of the server about the resource's
+                    # observability.
+                    self.observation.error(first_event.exception)
+                else:
+                    self.observation.error(error.NotObservable())
             return
 
         if first_event.message.opt.observe is None:
